@@ -81,6 +81,30 @@ func Generate(r *sim.Rng, prop, tier string, idx int) *sim.Case {
 	default:
 		genC05(r, c, tier, idx)
 	}
+	hangs := false
+	for _, f := range c.Faults {
+		if f.Kind == "stall_lost" || f.Kind == "stall" {
+			hangs = true // a hanging call occupies a timer worker: the second lock's lease would not be kept either
+		}
+	}
+	if c.Mode != "enum" && !hangs && c.Knobs["noise_lock"] == 0 && r.Chance(1, 6) {
+		// the providers also serve a second lock with a related name
+		lease := time.Duration(c.Knobs["lease_ns"])
+		c.Knobs["noise_lock"] = int64(1 + r.Intn(6))
+		c.Knobs["noise_tasks"] = int64(1 + r.Intn(3))
+		c.Knobs["noise_ops"] = int64(1 + r.Intn(4))
+		c.Knobs["noise_hold_ns"] = int64(sim.Pick(r, 0, lease/10, lease*2/3))
+	}
+	if c.Knobs["noise_lock"] > 0 {
+		// the second lock's renewals run on the same timer workers and take as long as
+		// the storage takes: with one worker a due renewal of "L" can sit behind one of
+		// them. The renewal schedule (T/2, retry after T/8) has 3T/8 of slack for
+		// 3 storage latencies + such delays, so the storage is kept within T/20 here
+		lease := time.Duration(c.Knobs["lease_ns"])
+		if c.Knobs["cas_latency_ns"] > int64(lease/20) {
+			c.Knobs["cas_latency_ns"] = int64(lease / 20)
+		}
+	}
 	if prop != "C04" && c.Mode != "enum" && c.Knobs["bg_timers"] == 0 && r.Chance(1, 6) {
 		// the timeout package is process-wide: other code uses it as well
 		lease := time.Duration(c.Knobs["lease_ns"])
@@ -297,6 +321,31 @@ func genC05(r *sim.Rng, c *sim.Case, tier string, idx int) {
 				ord = int64(1 + idx%8)
 			}
 			c.Faults = append(c.Faults, sim.Fault{Seam: "renew", Kind: "req_lost", Ord: ord})
+		}
+		if r.Chance(1, 6) {
+			// a neighbour: the same process also holds a second lock through the other
+			// provider, whose node loses the storage for longer than a lease (that lock is
+			// lost, its renewal gives up) and which is unlocked some time later. Nothing of
+			// this may touch the lease of "L", whose storage answers all the time
+			c.Knobs["noise_lock"] = int64(1 + r.Intn(6))
+			c.Knobs["noise_tasks"] = 1
+			c.Knobs["noise_ops"] = 1
+			c.Knobs["noise_node"] = 1
+			c.Knobs["noise_hold_ns"] = int64(2*lease + lease/2 + time.Duration(r.I64n(int64(2*lease))))
+			c.Tasks = append(c.Tasks, sim.Task{Name: "tO", Ops: []sim.Op{
+				{K: "sleep", D: int64(lease/4) + r.I64n(int64(lease))},
+				{K: "outage", N: 1, D: int64(lease+lease/4) + r.I64n(int64(lease))},
+			}})
+			c.Knobs["locker_tO"] = 0
+			// the contenders of "L" use the holder's node, which stays connected
+			for i := 1; i <= nc; i++ {
+				c.Knobs[fmt.Sprintf("locker_t%d", i)] = int64(2 * i)
+			}
+			c.Knobs["lockers"] = int64(2*nc + 2)
+			if hold < 6*lease {
+				hold += 6 * lease
+				c.Tasks[0].Ops[0].D = int64(hold)
+			}
 		}
 		if r.Chance(1, 5) {
 			// the holder's provider is shut down while the lock is held: the tenure goes on
